@@ -13,10 +13,15 @@
     [bitmap.Next/ToArray] [segs]: [NextOne walk of the whole bitmap; PrevOne walk; ToArray(bm)];
         spec = [ones; rev ones; ones].
     [bitmap.NextPrev/dual] [segs; i; e] (i < e): the six calls of [NextPrevDual];
-        spec = [first; last; first; last; -1; -1]. *)
+        spec = [first; last; first; last; -1; -1].
+    [bitmap.Next/Get1] [segs; i; e] (i < e): [n; Get1(bm,n) or -1; p; Get1(bm,p) or -1] ([NextGet1]);
+        spec = [first; 1 or -1; last; 1 or -1].
+    [bitmap.Next/count] [segs; tr; i; e] (e < 64*len): [rounds of the NextOne walk; of the PrevOne walk;
+        Rank64(e) - Rank64(i)] with the index of IndexRank64(bm, tr) ([WalkCount]); spec = three times the
+        number of 1-bits of the range. *)
 From Coq Require Import ZArith List Bool String.
 From Low Require Import Lib.Bits Lib.BitSeq Lib.Val Model.BitmapNext Model.BitmapNext32 Model.BitmapNextIter
-  Model.BitmapOf Spec.NextSpec.
+  Model.BitmapOf Model.BitmapNextReaders Spec.NextSpec.
 Import ListNotations.
 Open Scope string_scope.
 Open Scope Z_scope.
@@ -126,5 +131,23 @@ Definition ops_C13_wide : list opdef := [
                           (fun bm i e => vozs (NextPrevDual bm i e));
      op_spec := fun_spec (fun a => with_bm_i_e a (fun bm i e => next_dom bm i e && (i <? e))
                           (fun bm i e => let sn := spec_NextOne bm i e in let sp := spec_PrevOne bm i e in
-                                         vzs [sn; sp; sn; sp; -1; -1])) |}
+                                         vzs [sn; sp; sn; sp; -1; -1])) |};
+  {| op_name := "bitmap.Next/Get1";
+     op_run := fun a => with_bm_i_e a (fun bm i e => next_dom bm i e && (i <? e))
+                          (fun bm i e => vozs (NextGet1 bm i e));
+     op_spec := fun_spec (fun a => with_bm_i_e a (fun bm i e => next_dom bm i e && (i <? e))
+                          (fun bm i e => let sn := spec_NextOne bm i e in let sp := spec_PrevOne bm i e in
+                                         vzs [sn; if sn =? -1 then -1 else 1; sp; if sp =? -1 then -1 else 1])) |};
+  {| op_name := "bitmap.Next/count";
+     op_run := fun a => match a with
+       | [bm; tr; i; e] => match as_bm bm, as_bool tr, as_z i, as_z e with
+           | Some bm, Some tr, Some i, Some e =>
+               if iter_dom bm i e && (e <? 64 * zlen bm) then vozs (WalkCount bm tr i e) else VBad
+           | _, _, _, _ => VBad end
+       | _ => VBad end;
+     op_spec := fun_spec (fun a => match a with
+       | [bm; tr; i; e] => match as_bm bm, as_z i, as_z e with
+           | Some bm, Some i, Some e => let c := zlen (ones_in bm i e) in vzs [c; c; c]
+           | _, _, _ => VBad end
+       | _ => VBad end) |}
 ].
